@@ -4,16 +4,16 @@
 // Attached (cfg(kani)) as a child module of mithril-stm/src/membership_commitment/merkle_tree/commitment.rs.
 use super::*;
 use crate::membership_commitment::{MerkleBatchPath, MerkleTree, MerkleTreeLeaf};
-use digest::{FixedOutput, HashMarker, Output, OutputSizeUser, Update, consts::U8};
+use digest::{FixedOutput, HashMarker, Output, OutputSizeUser, Update, consts::U2};
 
-const IN_CAP: usize = 17; // longest input: two 8-byte digests
+const IN_CAP: usize = 5; // longest input: two 2-byte digests (short digests keep every byte loop short)
 const TABLE_CAP: usize = 16;
 
 #[derive(Clone, Copy, PartialEq, Eq)]
 struct Entry {
     len: usize,
     data: [u8; IN_CAP],
-    out: u64,
+    out: u16,
 }
 static mut TABLE: [Option<Entry>; TABLE_CAP] = [None; TABLE_CAP];
 static mut TABLE_N: usize = 0;
@@ -21,7 +21,7 @@ static mut OVERFLOW: bool = false;
 
 /// the ideal hash: a function (memoised) that never collides (fresh output for each new input).
 /// Written without a loop (table slots compared by straight-line code) so that no unwinding bound applies to it.
-fn oracle(len: usize, data: [u8; IN_CAP]) -> u64 {
+fn oracle(len: usize, data: [u8; IN_CAP]) -> u16 {
     macro_rules! slot {
         ($i:expr) => {
             if $i < unsafe { TABLE_N } {
@@ -40,7 +40,7 @@ fn oracle(len: usize, data: [u8; IN_CAP]) -> u64 {
             OVERFLOW = true;
             return 0;
         }
-        let out = 0x1000 + TABLE_N as u64;
+        let out = 0x100 + TABLE_N as u16;
         TABLE[TABLE_N] = Some(Entry { len, data, out });
         TABLE_N += 1;
         out
@@ -59,7 +59,7 @@ impl Default for IdealHash {
 }
 impl HashMarker for IdealHash {}
 impl OutputSizeUser for IdealHash {
-    type OutputSize = U8;
+    type OutputSize = U2;
 }
 impl Update for IdealHash {
     fn update(&mut self, d: &[u8]) {
@@ -163,7 +163,7 @@ fn check_soundness(n: usize, k: usize, nvals: usize) {
     // arbitrary proof
     let raw_idx: [usize; 2] = kani::any();
     let raw_claim: [u8; 2] = kani::any();
-    let raw_vals: [u64; 3] = kani::any();
+    let raw_vals: [u16; 3] = kani::any();
     // keep the index arithmetic `i + next_power_of_two - 1` from overflowing (decided separately, C05)
     kani::assume(raw_idx[0] < 64 && raw_idx[1] < 64);
     let mut idx = Vec::new();
@@ -205,11 +205,11 @@ fn check_soundness(n: usize, k: usize, nvals: usize) {
     }
 }
 
-c09_harness! { #[kani::unwind(18)] fn c09_completeness_n1() { check_completeness(1) } }
-c09_harness! { #[kani::unwind(18)] fn c09_completeness_n2() { check_completeness(2) } }
-c09_harness! { #[kani::unwind(18)] fn c09_completeness_n3() { check_completeness(3) } }
-c09_harness! { #[kani::unwind(18)] fn c09_completeness_n4() { check_completeness(4) } }
-c09_harness! { #[kani::unwind(18)] fn c09_soundness_n2_k1() { check_soundness(2, 1, kani::any::<u8>() as usize % 3) } }
-c09_harness! { #[kani::unwind(18)] fn c09_soundness_n3_k1() { check_soundness(3, 1, kani::any::<u8>() as usize % 4) } }
-c09_harness! { #[kani::unwind(18)] fn c09_soundness_n3_k2() { check_soundness(3, 2, kani::any::<u8>() as usize % 4) } }
-c09_harness! { #[kani::unwind(18)] fn c09_soundness_n4_k2() { check_soundness(4, 2, kani::any::<u8>() as usize % 4) } }
+c09_harness! { #[kani::unwind(8)] fn c09_completeness_n1() { check_completeness(1) } }
+c09_harness! { #[kani::unwind(8)] fn c09_completeness_n2() { check_completeness(2) } }
+c09_harness! { #[kani::unwind(8)] fn c09_completeness_n3() { check_completeness(3) } }
+c09_harness! { #[kani::unwind(8)] fn c09_completeness_n4() { check_completeness(4) } }
+c09_harness! { #[kani::unwind(8)] fn c09_soundness_n2_k1() { check_soundness(2, 1, kani::any::<u8>() as usize % 3) } }
+c09_harness! { #[kani::unwind(8)] fn c09_soundness_n3_k1() { check_soundness(3, 1, kani::any::<u8>() as usize % 4) } }
+c09_harness! { #[kani::unwind(8)] fn c09_soundness_n3_k2() { check_soundness(3, 2, kani::any::<u8>() as usize % 4) } }
+c09_harness! { #[kani::unwind(8)] fn c09_soundness_n4_k2() { check_soundness(4, 2, kani::any::<u8>() as usize % 4) } }
